@@ -20,7 +20,7 @@ inductive TOp (V : Type) where
   | all
   | flush
   | restart
-  | setDisk (kind : String)
+  | setDisk (kind : String) (tbl : Option (List V))
 
 structure Kind (V : Type) where
   ops : Ops V
@@ -45,14 +45,34 @@ def fmtOpt {V : Type} (f : V → String) : Option V → String
   | none => "none"
   | some v => "F:" ++ f v
 
-def parseCommon {V : Type} (p : List String) : Option (TOp V) :=
+def mapM' {α β : Type} (f : α → Option β) : List α → Option (List β)
+  | [] => some []
+  | a :: as => match f a, mapM' f as with
+    | some b, some bs => some (b :: bs)
+    | _, _ => none
+
+/-- a hand-written file: `T:<entry>+<entry>…`, fields of an entry separated by '.' -/
+def parseTable {V : Type} (entry : List String → Option V) (kind : String) : Option (List V) :=
+  if kind.startsWith "T:" then
+    let body := (kind.drop 2).toString
+    if body = "" then some [] else mapM' (fun e => entry (e.splitOn ".")) (body.splitOn "+")
+  else none
+
+def parseCommon {V : Type} (entry : List String → Option V) (p : List String) : Option (TOp V) :=
   match p with
   | ["d", k] => (hexToChars k).map .del
   | ["g", k] => (hexToChars k).map .get
   | ["a"] => some .all
   | ["f"] => some .flush
   | ["r"] => some .restart
-  | ["x", kind] => some (.setDisk kind)
+  | ["x", kind] => some (.setDisk kind (parseTable entry kind))
+  | _ => none
+
+def userEntry : List String → Option User
+  | [n, pw, ad, push, pull] =>
+    match hexToChars n, hexToChars pw, hexToChars push, hexToChars pull with
+    | some n, some pw, some push, some pull => some { name := n, password := pw, admin := ad = "1", push := push, pull := pull }
+    | _, _, _, _ => none
   | _ => none
 
 def parseUserOp (tok : String) : Option (TOp User) :=
@@ -62,7 +82,25 @@ def parseUserOp (tok : String) : Option (TOp User) :=
     | some n, some pw, some push, some pull =>
       some (.save { name := n, password := pw, admin := ad = "1", push := push, pull := pull } (upd = "1"))
     | _, _, _, _ => none
-  | p => parseCommon p
+  | p => parseCommon userEntry p
+
+def routeEntry : List String → Option Route
+  | [p, u, ka, _] =>
+    match hexToChars p, hexToChars u with
+    | some p, some u => some { pattern := p, url := u, keepAlive := ka = "1" }
+    | _, _ => none
+  | _ => none
+
+/-- the URLs of a hand-written file that `url.Parse` rejects -/
+def badUrlsOf (tok : String) : List (List Char) :=
+  match tok.splitOn "," with
+  | ["x", kind] =>
+    if kind.startsWith "T:" then
+      ((kind.drop 2).toString.splitOn "+").filterMap (fun e => match e.splitOn "." with
+        | [_, u, _, ok] => if ok = "1" then none else hexToChars u
+        | _ => none)
+    else []
+  | _ => []
 
 /-- also returns the URL when `url.Parse` rejected it -/
 def parseRouteOp (tok : String) : Option (TOp Route × Option (List Char)) :=
@@ -71,13 +109,7 @@ def parseRouteOp (tok : String) : Option (TOp Route × Option (List Char)) :=
     match hexToChars p, hexToChars u with
     | some p, some u => some (.save { pattern := p, url := u, keepAlive := ka = "1" } false, if ok = "1" then none else some u)
     | _, _ => none
-  | p => (parseCommon p).map (·, none)
-
-def mapM' {α β : Type} (f : α → Option β) : List α → Option (List β)
-  | [] => some []
-  | a :: as => match f a, mapM' f as with
-    | some b, some bs => some (b :: bs)
-    | _, _ => none
+  | p => (parseCommon routeEntry p).map (·, none)
 
 def runModel {V : Type} (k : Kind V) : List (TOp V) → Server V → List String → List String
   | [], _, acc => acc.reverse
@@ -97,8 +129,10 @@ def runModel {V : Type} (k : Kind V) : List (TOp V) → Server V → List String
     | .restart =>
       let (sv', ok) := Server.boot k.ops k.dflt sv.disk
       runModel k rest sv' ((if ok then "ok" else "panic") :: acc)
-    | .setDisk kind =>
-      let d : Disk V := if kind = "missing" then .missing else if kind = "emptylist" then .table [] else .corrupt
+    | .setDisk kind tbl =>
+      let d : Disk V := match tbl with
+        | some t => .table t
+        | none => if kind = "missing" then .missing else if kind = "emptylist" then .table [] else .corrupt
       runModel k rest { sv with disk := d } ("ok" :: acc)
 
 def runSpec {V : Type} (k : Kind V) : List (TOp V) → Abs V → Bool → List String → List String
@@ -114,7 +148,16 @@ def runSpec {V : Type} (k : Kind V) : List (TOp V) → Abs V → Bool → List S
     | .all => runSpec k rest a true (fmtList k.fmt a.cur :: acc)
     | .flush => runSpec k rest (Abs.step k.spec k.dflt a .flush) true ("-" :: acc)
     | .restart => runSpec k rest (Abs.step k.spec k.dflt a .restart) true ("ok" :: acc)
-    | .setDisk _ => runSpec k rest a false ("-" :: acc)
+    | .setDisk _ tbl =>
+      -- a hand-written file whose entries have distinct canonical keys: a restart holds its
+      -- entries in stored form ("names and patterns are canonicalised"); any other file: no claim
+      match tbl with
+      | some t =>
+        let stored := t.filterMap k.spec.create
+        let keys := stored.map k.spec.key
+        if keys.eraseDups.length = keys.length then runSpec k rest { a with disk := some stored } true ("ok" :: acc)
+        else runSpec k rest a false ("-" :: acc)
+      | none => runSpec k rest a false ("-" :: acc)
 
 def answer {V : Type} (k : Kind V) (ops : List (TOp V)) : String :=
   let m := runModel k ops (Server.boot k.ops k.dflt .missing).1 []
@@ -154,7 +197,7 @@ def handle : List String → String
     | none => "bad-op"
   | "routes" :: toks =>
     match mapM' parseRouteOp toks with
-    | some ops => answer (routeKind (ops.filterMap (·.2))) (ops.map (·.1))
+    | some ops => answer (routeKind (ops.filterMap (·.2) ++ (toks.map badUrlsOf).flatten)) (ops.map (·.1))
     | none => "bad-op"
   | ["crash", hook, part, old, new] => crashAnswer hook part old new
   | _ => "bad-op"
